@@ -20,6 +20,35 @@ pub struct QRec {
     pub seq: B,
     pub qual: B,
     pub entry: u8,
+    /// Some(k): before this record is written, the same call is made on a writer that fails after k bytes
+    #[serde(default)]
+    pub pre_fail: Option<u16>,
+}
+
+fn write_q<W: std::io::Write>(out: &mut W, r: &QRec) -> Result<std::io::Result<()>, crate::engine::Failure> {
+    use fastq::Record;
+    let head = full_head(r);
+    Ok(match r.entry % 4 {
+        0 => fastq::write_to(&mut *out, &head, &r.seq, &r.qual),
+        1 => fastq::write_parts(&mut *out, &r.id, r.desc.as_ref().map(|d| &d.0[..]), &r.seq, &r.qual),
+        2 => fastq::OwnedRecord { head: head.clone(), seq: r.seq.0.clone(), qual: r.qual.0.clone() }.write(&mut *out),
+        _ => {
+            // RefRecord from parsing a CRLF rendering of the same record
+            let mut text = vec![b'@'];
+            text.extend_from_slice(&head);
+            text.extend_from_slice(b"\r\n");
+            text.extend_from_slice(&r.seq);
+            text.extend_from_slice(b"\r\n+\r\n");
+            text.extend_from_slice(&r.qual);
+            text.extend_from_slice(b"\r\n");
+            let mut rdr = fastq::Reader::new(&text[..]);
+            let res = match rdr.next() {
+                Some(Ok(rec)) => rec.write(&mut *out),
+                _ => fail!("fastq-write/setup", "cannot parse the source rendering {:?}", B(text.clone())),
+            };
+            res
+        }
+    })
 }
 
 #[derive(Clone, Debug, Serialize, Deserialize, Hash)]
@@ -51,8 +80,24 @@ impl Prop for FastqWrite {
             let alpha: &'static [u8] = if space { b"abcXYZ019_>@;+ \r\x80\xff" } else { b"abcXYZ019_>@;+\r\x80\xff" };
             vec(prop::sample::select(alpha), 0..10).prop_map(B)
         };
-        let rec = (part(false), prop::option::of(part(true)), vec(prop::sample::select(&b"ACGTN @+>;\x80"[..]), 0..40), vec(prop::sample::select(&b"!#5?IJ~@+> \xff"[..]), 40), 0u8..4).prop_map(
-            |(mut id, mut desc, seq, q, entry)| {
+        let pre_fail = prop_oneof![6 => Just(None), 1 => (0u16..60).prop_map(Some), 1 => (60u16..9000).prop_map(Some)];
+        // rarely: a header / sequence of several KiB (buffered writers switch strategy at such sizes)
+        let long = prop_oneof![40 => Just((0usize, 0usize)), 1 => (0usize..2, 200usize..9000)];
+        let rec = (part(false), prop::option::of(part(true)), vec(prop::sample::select(&b"ACGTN @+>;\x80"[..]), 0..40), vec(prop::sample::select(&b"!#5?IJ~@+> \xff"[..]), 40), 0u8..4, pre_fail, long).prop_map(
+            |(mut id, mut desc, mut seq, mut q, entry, pre_fail, long)| {
+                match long {
+                    (_, 0) => {}
+                    (0, n) => {
+                        let pat = if seq.is_empty() { vec![b'A'] } else { seq.clone() };
+                        seq = pat.iter().cycle().take(n).cloned().collect();
+                        let qp = q.clone();
+                        q = qp.iter().cycle().take(n).cloned().collect();
+                    }
+                    (_, n) => {
+                        let pat = if id.is_empty() { vec![b'i'] } else { id.0.clone() };
+                        id = B(pat.iter().cycle().take(n).cloned().collect());
+                    }
+                }
                 match desc.as_mut() {
                     Some(d) => {
                         if d.last() == Some(&b'\r') {
@@ -66,7 +111,7 @@ impl Prop for FastqWrite {
                     }
                 }
                 let qual = B(q[..seq.len()].to_vec());
-                QRec { id, desc, seq: B(seq), qual, entry }
+                QRec { id, desc, seq: B(seq), qual, entry, pre_fail }
             },
         );
         let sink = prop_oneof![3 => Just((0u8, 0u16)), 2 => (Just(1u8), prop_oneof![1u16..8, 8u16..200]), 1 => (Just(2u8), prop_oneof![1u16..8, 8u16..200, Just(4096u16)])];
@@ -77,28 +122,15 @@ impl Prop for FastqWrite {
         use fastq::Record;
         let mut out = super::c10::Sink::new(c.sink);
         for r in &c.recs {
-            let head = full_head(r);
             ctx.class(&format!("entry: {}", ENTRIES[(r.entry % 4) as usize]));
-            let res = match r.entry % 4 {
-                0 => fastq::write_to(&mut out, &head, &r.seq, &r.qual),
-                1 => fastq::write_parts(&mut out, &r.id, r.desc.as_ref().map(|d| &d.0[..]), &r.seq, &r.qual),
-                2 => fastq::OwnedRecord { head: head.clone(), seq: r.seq.0.clone(), qual: r.qual.0.clone() }.write(&mut out),
-                _ => {
-                    // RefRecord from parsing a CRLF rendering of the same record
-                    let mut text = vec![b'@'];
-                    text.extend_from_slice(&head);
-                    text.extend_from_slice(b"\r\n");
-                    text.extend_from_slice(&r.seq);
-                    text.extend_from_slice(b"\r\n+\r\n");
-                    text.extend_from_slice(&r.qual);
-                    text.extend_from_slice(b"\r\n");
-                    let mut rdr = fastq::Reader::new(&text[..]);
-                    match rdr.next() {
-                        Some(Ok(rec)) => rec.write(&mut out),
-                        _ => fail!("fastq-write/setup", "cannot parse the source rendering {:?}", B(text.clone())),
-                    }
+            if let Some(k) = r.pre_fail {
+                let mut f = super::c10::FailSink { left: k as usize, failed: false };
+                let _ = write_q(&mut f, r)?;
+                if f.failed {
+                    ctx.class("a write that failed with an I/O error precedes the write");
                 }
-            };
+            }
+            let res = write_q(&mut out, r)?;
             ensure!(res.is_ok(), "fastq-write/io-error", "writing to a Vec failed");
         }
         if c.recs.len() >= 2 || c.recs.iter().any(|r| r.seq.is_empty() || r.desc.is_some()) {
@@ -149,9 +181,52 @@ pub struct UCase {
     pub via_sets: bool,
     #[serde(default)]
     pub sink: (u8, u16),
+    /// via_sets: (number of record sets used in rotation - 1, n of read_record_set_exact or 0 = read_record_set);
+    /// with >= 2 sets the records of a set are written only after the next set has been read
+    #[serde(default)]
+    pub set_plan: (u8, u8),
 }
 
 pub struct Unchanged;
+
+/// Reads everything through `k` record sets used in rotation and calls `emit` for every record; with k >= 2 the
+/// records of a set are emitted one read later (sets must stay valid while the reader moves on).
+macro_rules! drain_sets {
+    ($rdr:expr, $set_ty:ty, $plan:expr, $sig:expr, $emit:expr) => {{
+        let k = ($plan.0 as usize % 3) + 1;
+        let n = $plan.1 as usize;
+        let mut sets: Vec<$set_ty> = (0..k).map(|_| <$set_ty>::default()).collect();
+        let mut pending: Option<usize> = None;
+        let mut i = 0;
+        loop {
+            let cur = i % k;
+            let r = if n == 0 { $rdr.read_record_set(&mut sets[cur]) } else { $rdr.read_record_set_exact(&mut sets[cur], Some(n)) };
+            let r = match r {
+                None => break,
+                Some(r) => r,
+            };
+            ensure!(r.is_ok(), $sig, "well-formed input gave {:?}", r.err().map(|e| e.to_string()));
+            if k == 1 {
+                for rec in &sets[cur] {
+                    $emit(rec);
+                }
+            } else {
+                if let Some(p) = pending {
+                    for rec in &sets[p] {
+                        $emit(rec);
+                    }
+                }
+                pending = Some(cur);
+            }
+            i += 1;
+        }
+        if let Some(p) = pending {
+            for rec in &sets[p] {
+                $emit(rec);
+            }
+        }
+    }};
+}
 
 fn strip_eol(mut b: &[u8]) -> &[u8] {
     while let Some((&l, rest)) = b.split_last() {
@@ -176,7 +251,8 @@ impl Prop for Unchanged {
                 Format::Fastq => gen::fastq_valid_doc(6),
             };
             let sink = prop_oneof![3 => Just((0u8, 0u16)), 1 => (Just(1u8), 1u16..40), 1 => (Just(2u8), 1u16..40)];
-            (gen::input_and_cap(f, input), gen::chunks(), any::<bool>(), sink).prop_map(move |((input, cap), chunks, via_sets, sink)| UCase { format: f, input, cap, chunks, via_sets, sink })
+            let plan = (0u8..3, prop_oneof![2 => Just(0u8), 2 => 1u8..3, 1 => 3u8..8]);
+            (gen::input_and_cap(f, input), gen::chunks(), any::<bool>(), sink, plan).prop_map(move |((input, cap), chunks, via_sets, sink, set_plan)| UCase { format: f, input, cap, chunks, via_sets, sink, set_plan })
         };
         boxed(prop_oneof![per(Format::Fasta), per(Format::Fastq)])
     }
@@ -202,6 +278,12 @@ impl Prop for Unchanged {
         }
         if c.via_sets {
             ctx.class("records taken from record sets");
+            if c.set_plan.0 % 3 > 0 {
+                ctx.class("records taken from 2-3 record sets used in rotation, written one read later");
+            }
+            if c.set_plan.1 > 0 {
+                ctx.class("record sets filled with read_record_set_exact(n)");
+            }
         }
         let src = crate::source::ChunkedSend::new(c.input.0.clone(), c.chunks.clone());
         match c.format {
@@ -209,15 +291,11 @@ impl Prop for Unchanged {
                 let mut outs: Vec<Vec<u8>> = Vec::new();
                 let mut rdr = fastq::Reader::with_capacity(src, c.cap);
                 if c.via_sets {
-                    let mut set = fastq::RecordSet::default();
-                    while let Some(r) = rdr.read_record_set(&mut set) {
-                        ensure!(r.is_ok(), "fastq-unchanged/unexpected-error", "well-formed input gave {:?}", r.err().map(|e| e.to_string()));
-                        for rec in &set {
-                            let mut o = super::c10::Sink::new(c.sink);
-                            rec.write_unchanged(&mut o).unwrap();
-                            outs.push(o.data);
-                        }
-                    }
+                    drain_sets!(rdr, fastq::RecordSet, c.set_plan, "fastq-unchanged/unexpected-error", |rec: fastq::RefRecord| {
+                        let mut o = super::c10::Sink::new(c.sink);
+                        rec.write_unchanged(&mut o).unwrap();
+                        outs.push(o.data);
+                    });
                 } else {
                     while let Some(r) = rdr.next() {
                         match r {
@@ -267,15 +345,11 @@ impl Prop for Unchanged {
                 let mut outs: Vec<(Vec<u8>, fasta::OwnedRecord)> = Vec::new();
                 let mut rdr = fasta::Reader::with_capacity(src, c.cap);
                 if c.via_sets {
-                    let mut set = fasta::RecordSet::default();
-                    while let Some(r) = rdr.read_record_set(&mut set) {
-                        ensure!(r.is_ok(), "fasta-unchanged/unexpected-error", "well-formed input gave an error");
-                        for rec in &set {
-                            let mut o = super::c10::Sink::new(c.sink);
-                            rec.write_unchanged(&mut o).unwrap();
-                            outs.push((o.data, rec.to_owned_record()));
-                        }
-                    }
+                    drain_sets!(rdr, fasta::RecordSet, c.set_plan, "fasta-unchanged/unexpected-error", |rec: fasta::RefRecord| {
+                        let mut o = super::c10::Sink::new(c.sink);
+                        rec.write_unchanged(&mut o).unwrap();
+                        outs.push((o.data, rec.to_owned_record()));
+                    });
                 } else {
                     while let Some(r) = rdr.next() {
                         match r {
@@ -319,7 +393,7 @@ impl Prop for Unchanged {
     }
 }
 
-pub const RULE: &str = "sub-check fastq-write-roundtrip: 1..5 records (id/desc/header as for C10, equally long sequence and quality without LF/CR) through write_to, write_parts, OwnedRecord::write, RefRecord::write (record parsed from a CRLF rendering), into a Vec or a writer that accepts only part of each buffer, parsed back at a generated capacity: head, seq, qual and id/desc parts come back. Sub-check write-unchanged: well-formed FASTQ/FASTA documents (LF, CRLF or per-record/per-line mixture, with/without final terminator, blank tail / blank lines) x capacity x chunk script x {next, record sets}: FASTQ: every record's write_unchanged output = its original bytes (+ LF iff the model says its fourth line is unterminated) and the concatenation = the input up to the end of the last record; FASTA: output ends in LF, equals the record's byte range after stripping trailing CR/LF, and re-parses to exactly one identical owned record. Non-trivial = CRLF or missing final terminator or a record straddling a refill (unchanged) / >= 2 records, empty sequence or description (round trip). Distinct = hash(case).";
+pub const RULE: &str = "sub-check fastq-write-roundtrip: 1..5 records (id/desc/header as for C10, equally long sequence and quality without LF/CR; 1 in 40 records has a header or a sequence+quality of 200..9000 bytes; 1 in 4 writes is preceded by the same call on a writer that fails with an I/O error after k bytes, result ignored) through write_to, write_parts, OwnedRecord::write, RefRecord::write (record parsed from a CRLF rendering), into a Vec or a writer that accepts only part of each buffer, parsed back at a generated capacity: head, seq, qual and id/desc parts come back. Sub-check write-unchanged: well-formed FASTQ/FASTA documents (LF, CRLF or per-record/per-line mixture, with/without final terminator, blank tail / blank lines) x capacity x chunk script x {next, 1..3 record sets used in rotation and filled with read_record_set or read_record_set_exact(n), the records of a set being written after the next set was read}: FASTQ: every record's write_unchanged output = its original bytes (+ LF iff the model says its fourth line is unterminated) and the concatenation = the input up to the end of the last record; FASTA: output ends in LF, equals the record's byte range after stripping trailing CR/LF, and re-parses to exactly one identical owned record. Non-trivial = CRLF or missing final terminator or a record straddling a refill (unchanged) / >= 2 records, empty sequence or description (round trip). Distinct = hash(case).";
 
 pub fn run(tier: Tier) -> i32 {
     let mut run = Run::new("C11", tier, "exploration");
